@@ -16,7 +16,10 @@ Executable model of
 Storage is one flat name space (a `StorageLocation`), modelled as an association list from `Path` to `Content`.
 `Path` has three disjoint shapes. That `savepoints/<seg id>/dkv/<dir>/<base>` is injective in `(id, uri)` and never
 a working URI is the naming contract of the code (`pathSegment` injective: C13; `parseDKVURI` + `filepath.Join`);
-the harness checks it on every generated storage (`collision` in the listings).
+the harness checks it on every generated storage (`collision` in the listings), for a local-directory-like
+location and for the S3 location. Creation and restore must compute the same name: before the D38 repair restore
+ran an `s3://` savepoint URI through `filepath.Dir/Join` and looked under a different key, so every restore from S3
+failed (the `load` observation of the `cfg=s3` cases).
 File bytes of WAL and table files are opaque tokens: nothing in this code looks inside them.
 -/
 namespace Rxn.Savepoint
